@@ -110,3 +110,27 @@ def make_datetime_proxy(clock, local_zone=False):
             return getattr(_real_datetime, name)
 
     return DateTimeModuleProxy(), SimDateTime
+
+
+class WarningsEscalated(object):
+    """The process was started with warnings of some categories turned into errors (-W error::UserWarning, a test runner's
+    filterwarnings = error): inside the block warnings.warn() of these categories raises.  DeprecationWarning and
+    SyntaxWarning are deliberately not offered: the pinned tree itself uses deprecated standard-library calls on 3.12."""
+    CATEGORIES = {'UserWarning': UserWarning, 'RuntimeWarning': RuntimeWarning, 'ResourceWarning': ResourceWarning,
+                  'UnicodeWarning': UnicodeWarning, 'BytesWarning': BytesWarning, 'FutureWarning': FutureWarning}
+
+    def __init__(self, names):
+        self.names = [n for n in (names or []) if n]
+        self.cm = None
+
+    def __enter__(self):
+        import warnings
+        self.cm = warnings.catch_warnings()
+        self.cm.__enter__()
+        warnings.simplefilter('ignore')
+        for n in self.names:
+            warnings.simplefilter('error', self.CATEGORIES[n])
+        return self
+
+    def __exit__(self, *a):
+        return self.cm.__exit__(*a)
